@@ -91,6 +91,8 @@ def gen_rank(rnd: random.Random, rank: int, p: Dict[str, Any]) -> Dict[str, Any]
                     del e["pid"]
                 elif x < 0.33:
                     e["tid"] = None
+                elif x < 0.38 and p.get("nameless"):
+                    del e["name"]                                                     # a complete event without a name
             a = rnd.random()
             if a < 0.7:
                 args: Dict[str, Any] = {}
@@ -170,7 +172,7 @@ def gen_fileset(rnd: random.Random, tier: str, big: bool = False) -> Dict[str, A
          "trange": rnd.choice([3, 20, 300, 5000]), "vocab": rnd.choice([1, 4, 12]),
          "steps": rnd.choice([0, 0, 0, 1]), "p_complete": rnd.choice([0.55, 0.7, 0.9, 1.0]),
          "shuffle": rnd.random() < 0.4, "per_rank_offset": rnd.choice([0, 0, 1000, -7]),
-         "field_like_args": rnd.random() < 0.3, "odd_labels": rnd.random() < 0.25}
+         "field_like_args": rnd.random() < 0.3, "odd_labels": rnd.random() < 0.25, "nameless": False}
     files = {}
     for r in range(n_ranks):
         q = dict(p)
